@@ -98,6 +98,7 @@ func runC09(w *World, r *Report) {
 	c09Immutable(w, r)
 	c09ReportLock(w, r)
 	c09ReplaceOnlyAfterUninstall(w, r)
+	c09LazyInit(w, r)
 }
 
 func c09PendingCheck(w *World, r *Report, ef *Effects) {
@@ -752,4 +753,66 @@ func impliesUninstalled(h *ssa.Function) bool {
 		}
 	}
 	return n > 0
+}
+
+// c09LazyInit: the Kubernetes client shared by the Secret/ConfigMap backends is created once, under
+// sync.Once: its fields are written only inside the function handed to Once.Do, and read in init only
+// after Do returned (no unlocked fast path).
+func c09LazyInit(w *World, r *Report) {
+	r.Rule("C09/LAZY-INIT", "lazyClient's client and clientErr are stored only inside the function passed to sync.Once.Do, and lazyClient.init reads them only after that Do call", 1)
+	initFn := w.Fn("pkg/action", "lazyClient.init")
+	if initFn == nil {
+		r.Unk("C09/LAZY-INIT", "anchor", "-", "lazyClient.init not found")
+		return
+	}
+	r.Fn(FuncName(initFn))
+	g := FullGraph(initFn)
+	var do ssa.CallInstruction
+	var onceFn *ssa.Function
+	for _, c := range callInstrs(initFn) {
+		if f, _ := calleeOf(c.Common()); f != nil && FuncName(f) == "(*sync.Once).Do" {
+			do = c
+			if mc, ok := c.Common().Args[1].(*ssa.MakeClosure); ok {
+				onceFn, _ = mc.Fn.(*ssa.Function)
+			}
+		}
+	}
+	bad := ""
+	if do == nil || onceFn == nil {
+		bad = "init no longer goes through sync.Once.Do with a function literal"
+	}
+	// stores to the fields anywhere in pkg/action
+	for _, fn := range w.FuncsIn("pkg/action") {
+		for _, b := range fn.Blocks {
+			for _, in := range b.Instrs {
+				st, ok := in.(*ssa.Store)
+				if !ok {
+					continue
+				}
+				if _, t, f := fieldNameOf(st.Addr); t == "lazyClient" && (f == "client" || f == "clientErr") && fn != onceFn {
+					if fn.Name() == "init" && fn.Parent() == nil && fn.Signature.Recv() == nil {
+						continue
+					}
+					bad = "field " + f + " is written outside the once-function (" + w.InstrPos(st) + ")"
+				}
+			}
+		}
+	}
+	// reads in init after Do
+	if do != nil {
+		for _, b := range initFn.Blocks {
+			for _, in := range b.Instrs {
+				ld, ok := in.(*ssa.UnOp)
+				if !ok || ld.Op != token.MUL {
+					continue
+				}
+				if _, t, f := fieldNameOf(ld.X); t == "lazyClient" && (f == "client" || f == "clientErr") {
+					if !g.DominatesInstr(do, posOf(ld)) {
+						bad = "field " + f + " is read before Once.Do returned (" + w.InstrPos(ld) + ")"
+					}
+				}
+			}
+		}
+	}
+	r.Check(bad == "", "C09/LAZY-INIT", "lazyClient", w.Pos(initFn.Pos()), "the shared client is created under sync.Once and read only afterwards", bad+": concurrent first uses of one storage backend race on the client")
 }
